@@ -46,6 +46,7 @@ type covRec struct {
 	cutBad   string    // an item cut short by cancellation whose slot error does not match the context's error
 	fbBad    string    // the slot of an item whose fallback ran does not hold the fallback's outcome
 	isAppend bool      // the list is built by appending one element per iteration (base = latest append result)
+	doneWhy  string    // diagnostic: why the exit test was not accepted
 	emptyOf  *eng.Term // the loop ran zero iterations because this slice was empty
 	storePos string
 }
@@ -307,6 +308,9 @@ func (m *BatchMon) OnEvent(c *eng.Ctx, ms eng.MState, ev *eng.Event) eng.MState 
 				if r := s.rec(eng.LoopID(ev.FrameCtx, l.Header)); r != nil {
 					if r.base != nil {
 						r.done = m.exitMatches(c, r, ev)
+						if r.done != 1 {
+							r.doneWhy += " (exit test " + ev.Cond.Pretty() + " at " + posStr(ev.Pos) + ")"
+						}
 					} else if !r.skipped {
 						r.emptyOf = zeroTripSlice(ev)
 					}
@@ -412,6 +416,7 @@ func (m *BatchMon) exitMatches(c *eng.Ctx, r *covRec, ev *eng.Event) int8 {
 		cond, neg = cond.A[0], !neg
 	}
 	if cond.K != eng.KBin {
+		r.doneWhy = " [exit-match step 1]"
 		return -1
 	}
 	taken := ev.Taken != neg // truth of cond
@@ -420,58 +425,72 @@ func (m *BatchMon) exitMatches(c *eng.Ctx, r *covRec, ev *eng.Event) int8 {
 	case "<":
 		idx, bound = cond.A[0], cond.A[1]
 		if taken {
+			r.doneWhy = " [exit-match step 2]"
 			return -1
 		}
 	case ">":
 		idx, bound = cond.A[1], cond.A[0]
 		if taken {
+			r.doneWhy = " [exit-match step 3]"
 			return -1
 		}
 	case ">=":
 		idx, bound = cond.A[0], cond.A[1]
 		if !taken {
+			r.doneWhy = " [exit-match step 4]"
 			return -1
 		}
 	case "<=":
 		idx, bound = cond.A[1], cond.A[0]
 		if !taken {
+			r.doneWhy = " [exit-match step 5]"
 			return -1
 		}
 	case "!=":
 		idx, bound = cond.A[0], cond.A[1]
 		if taken {
+			r.doneWhy = " [exit-match step 6]"
 			return -1
 		}
 	default:
+		r.doneWhy = " [exit-match step 7]"
 		return -1
 	}
 	k, off := eng.AffParts(idx)
 	if k == nil || k.K != eng.KSym {
+		r.doneWhy = " [exit-match step 8]"
 		return -1
 	}
 	if l, ok := eng.IVLoop(k.S); !ok || l != r.loop {
+		r.doneWhy = " [exit-match step 9]"
 		return -1
 	}
 	if st, ok := c.E.IVStep[k.S]; ok && st != 1 {
+		r.doneWhy = " [exit-match step 10]"
 		return -1
 	}
 	// a head-tested loop tests the index it is about to use; a bottom-tested (rotated) loop,
 	// e.g. range-over-int, tests the next one after the body has used the current one
 	wantOff := r.c
-	if blk := ev.Instr.Block(); blk != nil && eng.LoopID(ev.FrameCtx, blk) != r.loop {
+	if r.stored {
+		// this iteration's slot has already been written when the test runs: the loop is
+		// bottom-tested (whatever block the test ended up in) and asks about the next index
 		wantOff = r.c + 1
 	}
 	if off != wantOff {
+		r.doneWhy = " [exit-match step 11]"
 		return -1
 	}
 	if r.isAppend {
 		if r.normSrc != nil && bound == sliceLen(r.normSrc) {
 			return 1
 		}
+		r.doneWhy = " [exit-match step 12]"
 		return -1
 	}
 	root, lo, open := splitBase(r.base)
 	if !open {
+		r.doneWhy = " [exit-match step 13]"
 		return -1
 	}
 	want := sliceLen(r.base)
@@ -489,6 +508,7 @@ func (m *BatchMon) exitMatches(c *eng.Ctx, r *covRec, ev *eng.Event) int8 {
 			return 1
 		}
 	}
+	r.doneWhy = " [exit-match step 14]"
 	return -1
 }
 
@@ -849,7 +869,7 @@ func (m *BatchMon) onPost(c *eng.Ctx, s batchState, life lifeState, ev *eng.Even
 			case empty:
 				// nothing left to mark
 			case f.done != 1:
-				why = "the loop marking skipped items does not run to the end of the result list"
+				why = "the loop marking skipped items does not run to the end of the result list" + f.doneWhy
 			case !f.startOK || f.broken != "":
 				why = "the loop marking skipped items does not write every slot: " + f.broken
 			case f.fillBad != "":
